@@ -251,3 +251,51 @@ Qed.
 
 Corollary C19_run_never_crashes i c args site : mock_run i c args <> Crash site.
 Proof. intros E. pose proof (C19_run_settled i c args) as S. rewrite E in S. exact S. Qed.
+
+(* ---- the fuel of resolveImportConflict is not part of the result: once it suffices, more
+   of it changes nothing (so a run that ends within [resolve_fuel] is what the unbounded Go
+   recursion computes) ---- *)
+Lemma resolve_mono : forall f st a b lvl x,
+  resolve f st a b lvl = Some x -> forall g, f <= g -> resolve g st a b lvl = Some x.
+Proof.
+  induction f as [|f IH]; intros st a b lvl x E g LE; [discriminate E|].
+  destruct g as [|g]; [lia|]. assert (LE' : f <= g) by lia.
+  cbn [resolve] in *.
+  destruct (String.eqb (unique_name (ref_path st a) lvl) (unique_name (ref_path st b) lvl)).
+  - apply IH; assumption.
+  - (* the two renaming steps, each possibly recursing *)
+    assert (STEP : forall (o : option rstate) (p : pref) y,
+      match o with
+      | None => None
+      | Some st0 =>
+        match search_import (rs_map st0) (unique_name (ref_path st0 p) lvl) with
+        | Some c => if ref_eqb (PIn (i_path c)) p then Some (assign st0 p (unique_name (ref_path st0 p) lvl))
+                    else resolve f st0 p (PIn (i_path c)) (S lvl)
+        | None => Some (assign st0 p (unique_name (ref_path st0 p) lvl))
+        end
+      end = Some y ->
+      match o with
+      | None => None
+      | Some st0 =>
+        match search_import (rs_map st0) (unique_name (ref_path st0 p) lvl) with
+        | Some c => if ref_eqb (PIn (i_path c)) p then Some (assign st0 p (unique_name (ref_path st0 p) lvl))
+                    else resolve g st0 p (PIn (i_path c)) (S lvl)
+        | None => Some (assign st0 p (unique_name (ref_path st0 p) lvl))
+        end
+      end = Some y).
+    { intros [st0|] p y H; [|discriminate H].
+      destruct (search_import (rs_map st0) (unique_name (ref_path st0 p) lvl)) as [c|]; [|exact H].
+      destruct (ref_eqb (PIn (i_path c)) p); [exact H|]. apply IH; assumption. }
+    match type of E with
+    | ?one2 = Some x =>
+      match one2 with
+      | context [match ?inner with None => None | Some _ => _ end] =>
+        destruct inner as [st1|] eqn:E1; [|discriminate E]
+      end
+    end.
+    rewrite (STEP (Some st) a st1 E1). exact (STEP (Some st1) b x E).
+Qed.
+
+Theorem C19_resolve_fuel_irrelevant st a b lvl x :
+  resolve resolve_fuel st a b lvl = Some x -> forall g, resolve_fuel <= g -> resolve g st a b lvl = Some x.
+Proof. apply resolve_mono. Qed.
